@@ -1,23 +1,33 @@
 """Check configuration for property C07 (streams, evidence texts)."""
-_CODES = ('verdict codes (Model/ParserObs.v compare_obs): 1 = the parsed AST differs from the model\'s AST, 2 = only locations differ, 3 = different '
-          'ParseError variant, 4 = same variant at another location, 5 = ORACLE_MISS (the harness did not supply tree-sitter\'s / the regex crate\'s '
-          'answer for a query span / merged query / scan pattern the model asked for, or a non-ASCII character has no Unicode-class row), 6 = the '
-          'model reaches an unwrap()/expect() panic site, 7 = the model ran out of fuel, 8 = the implementation panicked or took longer than 2 s '
-          '(tag HANG), 9 = one side Ok and the other Err, 10 = the implementation parsed a text of the AST-directed generator to another AST '
-          '(names, values or any location) than the one the generator wrote, 11 = the scan-arm patterns differ, 12 = same error variant and '
-          'location but another payload (token / pattern / keyword / literal / character + context / query-error offset)')
 CFG = {'streams': [{'name': 'C07',
               'n_quick': 200,
               'n_thorough': 2000,
               'thorough_seeds': 1,
               'what_fails': 'ast::File::parse (parser.rs only, no checker) on a VALID program in a random layout disagreed with Model/Parser.v or '
-                            'with the AST the generator intended; ' + _CODES},
+                            'with the AST the generator intended; verdict codes (Model/ParserObs.v compare_obs): 1 = the parsed AST differs from the '
+                            "model's AST, 2 = only locations differ, 3 = different ParseError variant, 4 = same variant at another location, 5 = "
+                            "ORACLE_MISS (the harness did not supply tree-sitter's / the regex crate's answer for a query span / merged query / scan "
+                            'pattern the model asked for, or a non-ASCII character has no Unicode-class row), 6 = the model reaches an '
+                            'unwrap()/expect() panic site, 7 = the model ran out of fuel, 8 = the implementation panicked or took longer than 2 s '
+                            '(tag HANG), 9 = one side Ok and the other Err, 10 = the implementation parsed a text of the AST-directed generator to '
+                            'another AST (names, values or any location) than the one the generator wrote, 11 = the scan-arm patterns differ, 12 = '
+                            'same error variant and location but another payload (token / pattern / keyword / literal / character + context / '
+                            'query-error offset)'},
              {'name': 'C05p',
               'n_quick': 200,
               'n_thorough': 2000,
               'thorough_seeds': 1,
               'what_fails': 'ast::File::parse on a MALFORMED text (mutated valid program or hand-written edge case) disagreed with Model/Parser.v '
-                            '(error variant, location, payload, Ok-vs-Err, panic, hang); ' + _CODES}],
+                            '(error variant, location, payload, Ok-vs-Err, panic, hang); verdict codes (Model/ParserObs.v compare_obs): 1 = the '
+                            "parsed AST differs from the model's AST, 2 = only locations differ, 3 = different ParseError variant, 4 = same variant "
+                            "at another location, 5 = ORACLE_MISS (the harness did not supply tree-sitter's / the regex crate's answer for a query "
+                            'span / merged query / scan pattern the model asked for, or a non-ASCII character has no Unicode-class row), 6 = the '
+                            'model reaches an unwrap()/expect() panic site, 7 = the model ran out of fuel, 8 = the implementation panicked or took '
+                            'longer than 2 s (tag HANG), 9 = one side Ok and the other Err, 10 = the implementation parsed a text of the '
+                            'AST-directed generator to another AST (names, values or any location) than the one the generator wrote, 11 = the '
+                            'scan-arm patterns differ, 12 = same error variant and location but another payload (token / pattern / keyword / literal '
+                            '/ character + context / query-error offset)',
+              'model_only_codes': [3, 4, 12]}],
  'rule': 'stream C07: half the cases are gen::gen_program texts (all option mixes: scoped variables, scan, stdlib calls, globals, shorthands, '
          'inherit; depth 1-5, 1-4 stanzas) tokenised and laid out again, half come from an AST-directed generator (all 14 expression forms, all 11 '
          'statement forms, if/elif/else with 1-3 conditions of the kinds some/none/plain, scan with 1-3 arms, attribute lists with bare names, '
@@ -26,16 +36,16 @@ CFG = {'streams': [{'name': 'C07',
          'names; strings with multi-byte characters, quotes, backslashes, NUL, CR, raw newlines/tabs and every legal escape spelling; integers '
          '0..2^32-1 with leading zeros; $n up to usize::MAX; queries over several lines, with ; comments and with { ; \\" inside strings) which '
          'records during rendering the intended location of every located construct and compares the parsed AST with the intended one. Layout: '
-         'between any two tokens a gap over space, tab, LF, CR and ; comments (any text incl. multi-byte, {, ", ;), empty where the parser allows '
-         'it (never between two identifier characters, never inside @name/#name/$n, `inherit .name`, global NAME+quantifier; after a global NAME '
+         'between any two tokens a gap over space, tab, LF, CR and ; comments (any text incl. multi-byte, {, ", ;), empty where the parser allows it '
+         '(never between two identifier characters, never inside @name/#name/$n, `inherit .name`, global NAME+quantifier; after a global NAME '
          'without quantifier exactly a whitespace character first); optional trailing comma in non-empty list/set literals. Texts <= 1500 '
          'characters. non-trivial = parses, contains a comment or a multi-byte character and at least 3 statements; distinct by hash of the text. '
          'stream C05p: up to 2/5 hand-written edge cases (empty / whitespace-only / comment-only input, `global x` followed by every character '
-         'class, inherit / shorthand / statement / expression / stanza fragments for every ParseError variant, query errors on first and later '
-         'rows with leading text, brackets/calls/blocks/scoped chains nested 1-64 deep), the rest valid texts of both sources with 1-3 mutations: '
-         'token delete/duplicate/swap, stray delimiters, truncation, huge integers and $-indices (2^32, 2^64-1, 2^64, 23 digits), NUL and '
-         'non-ASCII characters (é, U+00A0, U+2028, U+3000, U+000B, 日, U+FF10, U+0661), near-miss keywords, top-level keywords in front of a '
-         'stanza, deep nesting, queries with two patterns, invalid queries, invalid scan regexes, bad #literals/@captures',
+         'class, inherit / shorthand / statement / expression / stanza fragments for every ParseError variant, query errors on first and later rows '
+         'with leading text, brackets/calls/blocks/scoped chains nested 1-64 deep), the rest valid texts of both sources with 1-3 mutations: token '
+         'delete/duplicate/swap, stray delimiters, truncation, huge integers and $-indices (2^32, 2^64-1, 2^64, 23 digits), NUL and non-ASCII '
+         'characters (é, U+00A0, U+2028, U+3000, U+000B, 日, U+FF10, U+0661), near-miss keywords, top-level keywords in front of a stanza, deep '
+         'nesting, queries with two patterns, invalid queries, invalid scan regexes, bad #literals/@captures',
  'explanation': 'Theorems (Props/C07.v, all universally quantified, Closed under the global context): location_advance / st_after_position '
                 '(consuming ANY text: offset = sum of UTF-8 lengths, row = number of newlines, column = characters since the last newline); '
                 'whitespace_skip_spec (exactly the maximal prefix of whitespace and ; comments); string_literal_roundtrip (every legal escape '
@@ -44,28 +54,28 @@ CFG = {'streams': [{'name': 'C07',
                 'parse_render_expr (round trip incl. all locations for all 14 expression forms under arbitrary layouts: gaps, trailing commas, '
                 'literal spellings) + layout_irrelevant_expr; parse_render_stmt and parse_render_block (round trip for all 11 statement forms, '
                 'attribute lists, condition lists, if/elif/else location bookkeeping, scan arms numbered in order of appearance, blocks nested to '
-                'any depth); parse_render_file (whole files: globals with quantifier/default, inherit, shorthands, stanzas with opaque query text up to the '
-                'first `{` outside strings/comments, every location, scan arms numbered in order of appearance; result = file_of_items of the located '
-                'items, patterns in order); unicode_sane_from_tables. Props/C05parse.v: parse_total, parse_never_out_of_fuel (fuel S(length text)), with witnesses '
-                'that the two tree-sitter-dependent panic sites are reachable if tree-sitter misbehaves. Correspondence: the real parser under '
-                'catch_unwind and a wall clock vs parse of Model/Parser.v (vm_compute) with tree-sitter, the regex crate and the Unicode tables as '
-                'per-case oracle tables keyed by what the MODEL asks for (byte span of its own skip_query, merged query source, decoded scan '
-                'pattern); compared: the whole AST including every location, the scan patterns, or the error variant + location + payload. '
-                'Mutants of the MODEL (column kept after newline; trailing comma rejected; `some` matched by prefix) are all detected by the '
-                'streams (193/200, 27/200, 1/200 differing cases before the generator was biased towards some*/none* conditions).',
+                'any depth); parse_render_file (whole files: globals with quantifier/default, inherit, shorthands, stanzas with opaque query text up '
+                'to the first `{` outside strings/comments, every location, scan arms numbered in order of appearance; result = file_of_items of the '
+                'located items, patterns in order); unicode_sane_from_tables. Props/C05parse.v: parse_total, parse_never_out_of_fuel (fuel S(length '
+                'text)), with witnesses that the two tree-sitter-dependent panic sites are reachable if tree-sitter misbehaves. Correspondence: the '
+                'real parser under catch_unwind and a wall clock vs parse of Model/Parser.v (vm_compute) with tree-sitter, the regex crate and the '
+                'Unicode tables as per-case oracle tables keyed by what the MODEL asks for (byte span of its own skip_query, merged query source, '
+                'decoded scan pattern); compared: the whole AST including every location, the scan patterns, or the error variant + location + '
+                'payload. Mutants of the MODEL (column kept after newline; trailing comma rejected; `some` matched by prefix) are all detected by '
+                'the streams (193/200, 27/200, 1/200 differing cases before the generator was biased towards some*/none* conditions).',
  'assumptions': ['tree-sitter (Query::new on each stanza query + "@__tsg__full_match" and on the merged source), Regex::new and '
                  'char::is_alphabetic/is_alphanumeric/is_whitespace on non-ASCII characters are externals of the model; the harness records their '
                  'answers per case, found by an untrusted structure-only port of parser.rs; a missing answer is verdict 5, never an agreement',
                  'the Display text of `node` statements is not produced by the parser and is erased on both sides',
                  'HashSet/HashMap contents (inherited names, shorthands) are compared in sorted order',
                  'replay: the record holds the text and (AST-directed cases) the Debug text of the intended AST, which is compared again on replay'],
- 'partial': ['none of the listed theorems is partial: parse_render_file is proved for whole files. Stated limits of its hypotheses (not weakenings of the '
-             'parser model): (a) layouts of the theorems are slightly narrower than what the parser accepts - a gap is forced non-empty between a '
-             'token ending and a token starting with an identifier character, so merges that the parser would still read correctly (`(f)x`, '
-             '`forx`, `global x` directly followed by the next item when it cannot merge) are not claimed; the correspondence stream does generate '
-             'them; (b) a global without quantifier is written with exactly one of space/tab/LF/CR after its name; (c) shorthand names may repeat '
-             '(the result is then the map file_of_items computes: the later definition wins), the `vtext` of node statements (Display text, not '
-             'parser output) is [] in the model and erased in the comparison',
-             'hypothesis UnicodeSane (whitespace characters are not identifier characters) is about the external Unicode tables; it is checked '
-             'on the table of every correspondence case (uni_sane, a violation is ORACLE_MISS); hypotheses queries_ok / x_merged of '
-             'parse_render_file are what tree-sitter answers, recorded per case']}
+ 'partial': ['none of the listed theorems is partial: parse_render_file is proved for whole files. Stated limits of its hypotheses (not weakenings '
+             'of the parser model): (a) layouts of the theorems are slightly narrower than what the parser accepts - a gap is forced non-empty '
+             'between a token ending and a token starting with an identifier character, so merges that the parser would still read correctly '
+             '(`(f)x`, `forx`, `global x` directly followed by the next item when it cannot merge) are not claimed; the correspondence stream does '
+             'generate them; (b) a global without quantifier is written with exactly one of space/tab/LF/CR after its name; (c) shorthand names may '
+             'repeat (the result is then the map file_of_items computes: the later definition wins), the `vtext` of node statements (Display text, '
+             'not parser output) is [] in the model and erased in the comparison',
+             'hypothesis UnicodeSane (whitespace characters are not identifier characters) is about the external Unicode tables; it is checked on '
+             'the table of every correspondence case (uni_sane, a violation is ORACLE_MISS); hypotheses queries_ok / x_merged of parse_render_file '
+             'are what tree-sitter answers, recorded per case']}
